@@ -379,6 +379,8 @@ def run(ctx):
     regex_lemmas(ctx, real)
     verify_split_gpg(ctx, real)
     verify_internal_parser(ctx, real)
+    from props import C08 as _c08
+    _c08.run_dump_format(ctx)          # _dump_format / get_as_string: one entry per key, the value exactly as stored
     for q in ("Deb822._internal_parser", "Deb822._skip_useless_lines", "Deb822.split_gpg_and_payload", "Deb822._dump_format",
               "Deb822.iter_paragraphs", "Deb822._gpg_stripped_paragraph"):
         node, _ = mod.lookup(q)
